@@ -40,7 +40,19 @@ var discBodies = []string{`null`, `{}`, `[]`, `{"authorization_endpoint":5}`, `{
 
 var reqShapes = []string{"nil-request-msg", "nil-attributes", "nil-request", "nil-http", "empty-http", "nil-headers", "no-path", "path-no-slash", "path-only-query", "path-only-fragment",
 	"path-percent", "huge-cookie", "cookie-garbage", "cookie-nul", "cookie-many-equals", "cookie-only-name", "host-empty", "host-weird", "huge-query", "callback-bad-escape",
-	"callback-huge", "callback-empty-values", "callback-semicolons", "logout-with-garbage-cookie", "upper-case-header-keys", "scheme-empty", "unicode"}
+	"callback-huge", "callback-empty-values", "callback-semicolons", "logout-with-garbage-cookie", "upper-case-header-keys", "scheme-empty", "unicode",
+	"cookie-fuzz", "cookie-fuzz", "cookie-fuzz", "cookie-quotes", "path-fuzz"}
+
+// nasty alphabet for seeded fuzz strings (cookie and path syntax characters, quotes, controls)
+const fuzzAlphabet = "\"';=,: \t%&?#/\\[]{}<>ab0\x00\x7f\xff"
+
+func fuzzString(r *Rng, n int) string {
+	b := make([]byte, n)
+	for i := range b {
+		b[i] = fuzzAlphabet[r.Intn(len(fuzzAlphabet))]
+	}
+	return string(b)
+}
 
 func genC15(r *Rng, tier string, idx int) *Plan {
 	p := &Plan{SchedSeed: r.U64()}
@@ -62,6 +74,13 @@ func genC15(r *Rng, tier string, idx int) *Plan {
 		}
 	case 1: // malformed token-endpoint bodies at login and at refresh
 		p.Mode = "token-body"
+		if (idx/6)%3 == 2 {
+			// ... or no HTTP answer at all: the transport fails
+			p.Mode = "token-transport-fault"
+			p.Faults = append(p.Faults, Fault{Site: "idp.token", Nth: 1, Kind: r.Pick([]string{"reset-before", "reset-after", "truncated"})},
+				Fault{Site: "idp.token", Nth: r.Range(2, 3), Kind: r.Pick([]string{"reset-before", "reset-after", "500"})},
+				Fault{Site: "net.dial", Nth: r.Range(3, 6), Kind: "refused"})
+		}
 		b1, b2 := tokenBodies[(idx/6)%len(tokenBodies)], tokenBodies[r.Intn(len(tokenBodies))]
 		p.Ops = append(p.Ops, Op{ID: nid(), Kind: "idp-raw", S: b1, D: 1}, Op{ID: nid(), Kind: "nav", Path: t}, Op{ID: nid(), Kind: "nav", Path: t},
 			Op{ID: nid(), Kind: "adv", D: 400}, Op{ID: nid(), Kind: "idp-raw", S: b2, D: 1}, Op{ID: nid(), Kind: "send", Path: t, S: "own"}, Op{ID: nid(), Kind: "send", Path: t, S: "own"})
@@ -176,6 +195,24 @@ func hostileRequest(w *World, shape string) *envoy.CheckRequest {
 		return r
 	case "scheme-empty":
 		return mkRequest("", host, "/x", nil)
+	case "cookie-fuzz":
+		r := NewRng(w.valRng.U64())
+		var parts []string
+		for i, n := 0, r.Range(1, 5); i < n; i++ {
+			name := cookie
+			if r.Chance(0.4) {
+				name = fuzzString(r, r.Range(0, 6))
+			}
+			parts = append(parts, name+"="+fuzzString(r, r.Range(0, 4)))
+		}
+		return mk(r.Pick([]string{"/x", f.Spec.CallbackPath + "?code=a&state=b", f.Spec.Logout.Path}), map[string]string{"cookie": strings.Join(parts, r.Pick([]string{"; ", ";", " ;  ", ","}))})
+	case "cookie-quotes":
+		r := NewRng(w.valRng.U64())
+		v := r.Pick([]string{`"`, `""`, `"a`, `a"`, `"a"`, `'`, `"="`, `"\\"`})
+		return mk("/x", map[string]string{"cookie": "theme=" + v + "; " + cookie + "=" + v + "; z=" + v})
+	case "path-fuzz":
+		r := NewRng(w.valRng.U64())
+		return mk("/"+fuzzString(r, r.Range(0, 12)), map[string]string{"cookie": cookie + "=abc"})
 	case "unicode":
 		return mk("/‮\u0000/é?\xff=\xfe", map[string]string{"cookie": cookie + "=é‮"})
 	}
